@@ -78,9 +78,11 @@ Definition eval_op (iota : string -> list Z -> Z) (op : string) (w : Z) (vs : li
   | OAnd, v :: r => wrap w (fold_left Z.land r v)
   | OSub, [a] => wrap w (- a)
   | OSub, [a; b] => wrap w (a - b)
-  | OShl, [a; c] => wrap w (Z.shiftl a c)
-  | OShr, [a; c] => wrap w (Z.shiftr (wrap w a) c)
-  | OSar, [a; c] => wrap w (Z.shiftr (sgn w a) c)
+  (* counts are saturated at w: the same function as the unsaturated shift on w-bit operands, but computable
+     for huge counts (a 2^64-fold iteration otherwise) *)
+  | OShl, [a; c] => wrap w (Z.shiftl a (Z.min c w))
+  | OShr, [a; c] => wrap w (Z.shiftr (wrap w a) (Z.min c w))
+  | OSar, [a; c] => wrap w (Z.shiftr (sgn w a) (Z.min c w))
   | ORol, [a; c] => if w =? 0 then 0 else rol w (wrap w a) c
   | ORor, [a; c] => if w =? 0 then 0 else ror w (wrap w a) c
   | OEq, [a; b] => if a =? b then wrap w 1 else 0
